@@ -244,6 +244,10 @@ pub fn replay_other(run: &'static Run, kind: &str, case: &J) -> Option<i32> {
             crate::bbchk::replay(run, case);
             Some(0)
         }
+        "fen-raw-root" => {
+            fen_raw_roots(run);
+            Some(0)
+        }
         "eval-order" => {
             // cheap: the whole family is repeated
             eval_order(run);
@@ -527,6 +531,34 @@ fn c11(run: &Run) -> i32 {
     report::finish(run, s, t, "material rule on every state of the sweep families; repetition and fifty-move verdicts at every node of every path of the history families, compared with the list of identities since the last capture or pawn move", true)
 }
 
+/// Positions one move below a FEN root whose en-passant field names a square nobody can capture on (what most programs
+/// write after every double step): written and read back, everything incl. the key must agree.
+fn fen_raw_roots(run: &Run) {
+    {
+        use crate::chess::game::Game;
+        let mut n = 0u64;
+        for fen in crate::ops::RAW_FEN_ROOTS {
+            let Ok(root) = Game::from_fen(fen) else { continue };
+            let moves: Vec<_> = root.moves().iter().copied().collect();
+            for m in moves {
+                let mut g = root.clone();
+                g.make_move(m);
+                n += 1;
+                let text = g.to_fen();
+                match crate::util::catch(|| Game::from_fen(&text)) {
+                    Ok(Ok(h)) => {
+                        if h.zobrist != g.zobrist || h.to_fen() != text {
+                            run.violation("fen-roundtrip-position", format!("fen-roundtrip-raw-root|{fen}|{m:?}"), J::obj(vec![("kind", J::s("fen-raw-root")), ("seed_fen", J::s(fen)), ("move", J::s(format!("{m:?}")))]), format!("{fen} + {m:?}: the position has key {:#018x}, the position read back from its own FEN {text} has key {:#018x}", g.zobrist.0, h.zobrist.0));
+                        }
+                    }
+                    other => run.violation("fen-read-rejects-own-output", format!("fen-read-rejects-own-output|{text}"), J::obj(vec![("kind", J::s("fen")), ("fen", J::s(text.clone())), ("family", J::s("raw-root"))]), format!("from_fen of own output {text}: {other:?}")),
+                }
+            }
+        }
+        run.family("FEN-RAW-ROOTS", "every position one move below 5 FEN roots whose en-passant field is set although no pawn can capture there: written, read back, compared incl. the key", n, n, true, "");
+    }
+}
+
 fn c06(run: &Run) -> i32 {
     let keymap = KeyMap::new();
     let ctx = make_ctx(run, Mon::for_prop("C06"), &keymap);
@@ -537,6 +569,7 @@ fn c06(run: &Run) -> i32 {
     plan.castle_enemy = vec![vec![Kind::R]];
     plan.heavy = Some((9, 10, 10));
     let (mut s, mut t) = sweep::run_plan(&ctx, &plan);
+    fen_raw_roots(run);
     let (a, b) = fenbad::run(run);
     s += a;
     t += b;
